@@ -39,6 +39,10 @@ def run(ctx):
                         "payload tokens are mapped to strings with quotes, backslashes, control characters, CR/LF, Unicode and empty strings; metadata "
                         "tables are generated with every TOML value kind (strings, integers incl. i64 bounds, floats incl. inf, booleans, all four "
                         "datetime kinds, arrays, nested tables, awkward keys)",
+                        "package descriptor URIs are constructed by parsing lower-case-scheme URI texts (uriparse canonicalises the scheme's "
+                        "case at construction, which is not a property of the writer); hosts, dot segments and percent escapes are deliberately "
+                        "not in RFC 3986 normal form and must be written as constructed; a working directory that is not UTF-8 must make the "
+                        "write fail",
                         "the TLA+ part decides structure (order preservation, or-grouping incl. empty groups, last-write-wins of process options); "
                         "escaping fidelity is decided by the independent decoder"]
     return vlib.finish(ctx, rule="TLC enumerates every BuildPlanBuilder call sequence of length <= 5 (thorough 6) over {provides x2, requires, requires with "
